@@ -12,7 +12,8 @@ def run_check(pid):
 
 def main():
     seeds = sys.argv[1:] or sorted(os.listdir(os.path.join(ROOT, "seeded")))
-    out = {}
+    mp = os.path.join(ROOT, "selftest", "matrix.json")
+    out = json.load(open(mp)) if sys.argv[1:] and os.path.exists(mp) else {}   # named seeds: merge into the existing matrix
     if subprocess.run(["git", "-C", "/repo", "diff", "--quiet"]).returncode != 0:
         print("/repo is dirty"); return 2
     for s in seeds:
@@ -31,7 +32,7 @@ def main():
             print(s, "caught by", fired, ("ERRORS " + str(err)) if err else "", flush=True)
         finally:
             subprocess.run(["git", "-C", "/repo", "checkout", "--", "."])
-    json.dump(out, open(os.path.join(ROOT, "selftest", "matrix.json"), "w"), indent=1)
+        json.dump(out, open(mp, "w"), indent=1)
 
 if __name__ == "__main__":
     sys.exit(main())
